@@ -8,7 +8,7 @@ PROP = dict(
                          "zz_verif_c10_test.go": "harness/main/c10_test.go"},
                   timeout=1200, timeout_thorough=2400)],
     technique="Coq proof (soundness of the load-time acceptance decision; metadata codec round trip; CID-checked fetch) + exhaustive enumeration of file/identity swaps against the real NewEpochFromConfig compared with the model's decision",
-    level_text="Theorems (Coq, no axioms): acceptance implies every file has the kind of its role, the configured epoch and (where recorded) one common root CID; index metadata round-trips for every metadata list within the format bounds and oversize metadata is rejected; a CID fetch from any CAR returns only a section whose CID field is the requested one. Tie: three generated epochs (A, another epoch, another CAR of A's epoch); every index file and the address-index directory (whole, only its pubkey index, only its manifest) replaced singly and in pairs, every file offered in every other role, the CAR replaced: ~190 NewEpochFromConfig calls whose accept/reject is compared with the model's decision on identities the harness reads from the files; metadata encode/decode cases.",
+    level_text="Theorems (Coq, no axioms): acceptance implies every file has the kind of its role, the configured epoch and (where recorded) one common root CID; index metadata round-trips for every metadata list within the format bounds and oversize metadata is rejected; a CID fetch from any CAR returns only a section whose CID field is the requested one. Tie: three generated epochs (A, another epoch, another CAR of A's epoch); every index file and the address-index directory (whole, only its pubkey index, only its manifest) replaced singly and in pairs, every file offered in every other role, the CAR replaced; the epoch's own files with ONLY the recorded root CID replaced by a sibling CID (same multihash, raw / dag-pb / dag-json codec or CIDv0 - a different root CID) in each root-recording file (cid-to-offset-and-size, slot-to-cid, sig-to-cid, sig-exists, gsfa manifest, gsfa pubkey index) singly, in every pair (one sibling in both, two different siblings) and in all of them (the one consistent set, accepted, and shown to still serve every object): ~350 NewEpochFromConfig calls whose accept/reject is compared with the model's decision on identities the harness reads from the files; Filecoin mode (when the retrieval client can be set up): the configured root replaced by another CAR's root and by each sibling, and the epoch's configured root with indexes that all record another root - each must be rejected (Go oracle only, the model has no configured root); indexes of A with a CAR they were not built from (another build; two equal-length sections exchanged; every group of equal-length sections rotated) served from a local file, through a ReaderAt and from a local file by a process whose location cache was filled from the right CAR: every CID fetched 6 times (3 rounds over all objects, then 3 times back to back; 9+3 thorough), every answer must be an error or the bytes stored under the requested CID; metadata encode/decode cases.",
     level_note="Trusted: Coq kernel; hand-written model C10_Load.v; typed openers' kind recognition is read by the harness from the files. Files that record no root CID (block-time table) are modelled as the code treats them.",
     design_ref="5 (C10)",
     trusted=["model C10_Load.v of epoch.go:NewEpochFromConfig / indexmeta (hand-written; tied by exhaustive swap enumeration)"] + COMMON_TRUSTED,
